@@ -395,6 +395,14 @@ def _replace(interp, args, kwargs):
 
 def _remove(interp, args, kwargs):
     _effect(interp, "remove")
+    g = interp.ctx.ghost
+    if "fs_removed" in g:          # names unlinked so far (ghost set)
+        cur = g["fs_removed"]
+        g["fs_removed"] = interp.set_union(cur, interp.make_set([SV(STR, _s(interp, args[0]))])) if hasattr(interp, "make_set") else cur
+    if "fs_remove_count" in g:
+        g["fs_remove_count"] = SV(INT, interp.ctx.term(g["fs_remove_count"], INT) + 1)
+    interp.ctx.may_raise(z3.Bool(interp.ctx.fresh_name("remove_fails")), "OSError", "os.remove") \
+        if interp.engine.exception_expected(interp.ctx, "OSError") else None
     return None
 
 
